@@ -2,63 +2,73 @@
    no frame, of any kind, in any state, makes it panic or block: used by C07 and C20.
    Stdlib only, no axioms. *)
 From Amq Require Import Lib.Base Gen.Consts Model.Wire Model.Frames Model.OutBuf
-     Model.Collector Model.Slots Model.Core.
+     Model.Collector Model.Slots Model.Core Spec.Slots Proofs.Slots.
 
-(* ---------- queue 0 is channel 0's reply queue, and nobody else's ---------- *)
+(* ---------- queues 0 and 1 belong to channel 0 (its reply queue and the allocation-reply
+   queue), and to nobody else: every other queue anything refers to has an id >= 2 ---------- *)
+
+Definition free_opt (o : option N) : Prop := match o with Some q => 2 <= q | None => True end.
 
 Definition q0free_slot (s : slot) : Prop :=
-  s_reply s <> 0 /\ (forall t q, In (t, q) (s_consumers s) -> q <> 0) /\
-  s_ret s <> Some 0 /\ s_conf s <> Some 0.
+  2 <= s_reply s /\ (forall t q, In (t, q) (s_consumers s) -> 2 <= q) /\
+  free_opt (s_ret s) /\ free_opt (s_conf s).
 
 Definition q0_room (m : qs) : Prop :=
   exists qu, alookup 0 m = Some qu /\ q_items qu = [] /\ q_cap qu = Some c_reply_queue_bound.
 
-Record WF (c : core) : Prop := {
-  wf_ch0 : c_phase c = PSteady ->
-           exists z, c_ch0 c = Some z /\ z_reply z = 0 /\ z_blocked z <> Some 0 /\ q0_room (c_qs c);
-  wf_slots : forall n s, alookup n (c_slots c) = Some s -> q0free_slot s;
-  wf_sealed : (exists code text, c_phase c = PServerClosing code text) \/ c_phase c = PClientException ->
-              ob_sealed (c_out c) = true }.
+(* the queue map agrees on the two low queues *)
+Definition low_same (m' m : qs) : Prop := forall k, k < 2 -> alookup k m' = alookup k m.
 
-(* what every helper keeps: phase, channel-0 slot, out-buffer, and queue 0 *)
+Lemma low_same_refl m : low_same m m. Proof. intros k _. reflexivity. Qed.
+Lemma low_same_trans a b c : low_same a b -> low_same b c -> low_same a c.
+Proof. intros H1 H2 k Hk. rewrite H1, H2; auto. Qed.
+From Coq Require Import RelationClasses.
+#[global] Instance low_same_Reflexive : Reflexive low_same := low_same_refl.
+
+(* what every helper keeps: phase, channel-0 slot, id table, sealedness, and queues 0 / 1 *)
 Record keep (c c' : core) : Prop := {
   k_phase : c_phase c' = c_phase c;
   k_ch0 : c_ch0 c' = c_ch0 c;
+  k_ids : c_ids c' = c_ids c;
+  k_nextq : c_nextq c' = c_nextq c;
   k_out : ob_sealed (c_out c) = true -> ob_sealed (c_out c') = true;
-  k_q0 : alookup 0 (c_qs c') = alookup 0 (c_qs c) }.
+  k_q0 : low_same (c_qs c') (c_qs c) }.
 
 Lemma mk_keep c c' :
-  c_phase c' = c_phase c -> c_ch0 c' = c_ch0 c -> c_out c' = c_out c ->
-  alookup 0 (c_qs c') = alookup 0 (c_qs c) -> keep c c'.
-Proof. intros a b d e. constructor; try assumption. rewrite d. auto. Qed.
+  c_phase c' = c_phase c -> c_ch0 c' = c_ch0 c -> c_ids c' = c_ids c -> c_nextq c' = c_nextq c ->
+  c_out c' = c_out c -> low_same (c_qs c') (c_qs c) -> keep c c'.
+Proof. intros a b i n d e. constructor; try assumption. rewrite d. auto. Qed.
 
 Lemma keep_refl c : keep c c. Proof. apply mk_keep; reflexivity. Qed.
 Lemma keep_trans a b c : keep a b -> keep b c -> keep a c.
-Proof. intros [a1 a2 a3 a4] [b1 b2 b3 b4]; constructor; try congruence; auto. Qed.
-
-Lemma try_send_q0 q it m r m' : try_send q it m = (r, m') -> q <> 0 -> alookup 0 m' = alookup 0 m.
 Proof.
-  unfold try_send. destruct (alookup q m) as [qu|]; [|intro H; inversion H; reflexivity].
-  destruct (negb (q_rx qu)); [intro H; inversion H; reflexivity|].
+  intros [a1 a2 a3 an a4 a5] [b1 b2 b3 bn b4 b5]; constructor; try congruence; auto.
+  eapply low_same_trans; eassumption.
+Qed.
+
+Lemma try_send_q0 q it m r m' : try_send q it m = (r, m') -> 2 <= q -> low_same m' m.
+Proof.
+  unfold try_send. destruct (alookup q m) as [qu|]; [|intro H; inversion H; intros; apply low_same_refl].
+  destruct (negb (q_rx qu)); [intro H; inversion H; intros; apply low_same_refl|].
   destruct (match q_cap qu with Some c => _ | None => false end);
-    intro H; inversion H; subst; [reflexivity|].
-  intro Hq. apply alookup_insert_neq. congruence.
+    intro H; inversion H; subst; intro Hq; [apply low_same_refl|].
+  intros k Hk. apply alookup_insert_neq. lia.
 Qed.
 
-Lemma drop_tx_q0 q m : q <> 0 -> alookup 0 (drop_tx q m) = alookup 0 m.
+Lemma drop_tx_q0 q m : 2 <= q -> low_same (drop_tx q m) m.
 Proof.
-  intro Hq. unfold drop_tx. destruct (alookup q m); [|reflexivity].
-  apply alookup_insert_neq. congruence.
+  intros Hq k Hk. unfold drop_tx. destruct (alookup q m); [|reflexivity].
+  apply alookup_insert_neq. lia.
 Qed.
 
-Lemma drop_tx_opt_q0 q m : q <> Some 0 -> alookup 0 (drop_tx_opt q m) = alookup 0 m.
-Proof. destruct q as [q|]; [|reflexivity]. intro H. apply drop_tx_q0. congruence. Qed.
+Lemma drop_tx_opt_q0 q m : free_opt q -> low_same (drop_tx_opt q m) m.
+Proof. destruct q as [q|]; [|intros; apply low_same_refl]. intro H. apply drop_tx_q0. exact H. Qed.
 
-Lemma send_keep q it c o c' : send q it c = (o, c') -> q <> 0 -> keep c c'.
+Lemma send_keep q it c o c' : send q it c = (o, c') -> 2 <= q -> keep c c'.
 Proof.
   unfold send. destruct (try_send q it (c_qs c)) as [r m] eqn:E. intros H Hq.
   pose proof (try_send_q0 E Hq) as H0.
-  destruct r; inversion H; subst; apply mk_keep; try reflexivity; exact H0.
+  destruct r; inversion H; subst; apply mk_keep; try reflexivity; first [exact H0 | apply low_same_refl].
 Qed.
 
 Lemma send_slots q it c o c' : send q it c = (o, c') -> c_slots c' = c_slots c.
@@ -72,13 +82,13 @@ Proof.
 Qed.
 
 Lemma send_all_keep cons it : forall c o c',
-  send_all cons it c = (o, c') -> (forall t q, In (t, q) cons -> q <> 0) ->
+  send_all cons it c = (o, c') -> (forall t q, In (t, q) cons -> 2 <= q) ->
   keep c c' /\ c_slots c' = c_slots c /\ forall site, o <> OPanic site.
 Proof.
   induction cons as [|[t q] cons IH]; intros c o c' H Hq; cbn [send_all] in H.
   - inversion H; subst. split; [apply keep_refl | split; [reflexivity | discriminate]].
   - destruct (send q it c) as [o1 c1] eqn:E.
-    assert (Hq0 : q <> 0) by (eapply Hq; left; reflexivity).
+    assert (Hq0 : 2 <= q) by (eapply Hq; left; reflexivity).
     pose proof (send_keep E Hq0) as K1. pose proof (send_slots E) as S1.
     pose proof (send_no_panic E) as N1.
     destruct o1.
@@ -89,34 +99,35 @@ Proof.
 Qed.
 
 Lemma fold_drop_cons_q0 (cons : list (str * N)) : forall m,
-  (forall t q, In (t, q) cons -> q <> 0) ->
-  alookup 0 (fold_left (fun m '(_, q) => drop_tx q m) cons m) = alookup 0 m.
+  (forall t q, In (t, q) cons -> 2 <= q) ->
+  low_same (fold_left (fun m '(_, q) => drop_tx q m) cons m) m.
 Proof.
-  induction cons as [|[t q] cons IH]; intros m Hq; cbn [fold_left]; [reflexivity|].
-  rewrite IH by (intros; eapply Hq; right; eassumption).
+  induction cons as [|[t q] cons IH]; intros m Hq; cbn [fold_left]; [apply low_same_refl|].
+  eapply low_same_trans; [apply IH; intros; eapply Hq; right; eassumption|].
   apply drop_tx_q0. eapply Hq; left; reflexivity.
 Qed.
 
-Definition mail_q0free (l : list msg) : Prop := forall x, In x l -> msg_q x <> Some 0.
+Definition mail_q0free (l : list msg) : Prop := forall x, In x l -> free_opt (msg_q x).
 
 Lemma fold_drop_mail_q0 l : forall m,
   mail_q0free l ->
-  alookup 0 (fold_left (fun m x => drop_tx_opt (msg_q x) m) l m) = alookup 0 m.
+  low_same (fold_left (fun m x => drop_tx_opt (msg_q x) m) l m) m.
 Proof.
-  induction l as [|x l IH]; intros m Hq; cbn [fold_left]; [reflexivity|].
-  rewrite IH by (intros y Hy; apply Hq; right; exact Hy).
+  induction l as [|x l IH]; intros m Hq; cbn [fold_left]; [apply low_same_refl|].
+  eapply low_same_trans; [apply IH; intros y Hy; apply Hq; right; exact Hy|].
   apply drop_tx_opt_q0. apply Hq. left; reflexivity.
 Qed.
 
 (* slots whose mailbox holds no listener registration naming queue 0 *)
 Definition slot_ok (s : slot) : Prop := q0free_slot s /\ mail_q0free (s_mail s).
 
-Lemma drop_slot_qs_q0 s m : slot_ok s -> alookup 0 (drop_slot_qs s m) = alookup 0 m.
+Lemma drop_slot_qs_q0 s m : slot_ok s -> low_same (drop_slot_qs s m) m.
 Proof.
   intros [(Hr & Hc & Hret & Hconf) Hm]. unfold drop_slot_qs.
-  rewrite fold_drop_mail_q0 by exact Hm.
-  rewrite drop_tx_opt_q0 by exact Hconf. rewrite drop_tx_opt_q0 by exact Hret.
-  rewrite fold_drop_cons_q0 by exact Hc. apply drop_tx_q0. exact Hr.
+  eapply low_same_trans; [apply fold_drop_mail_q0; exact Hm|].
+  eapply low_same_trans; [apply drop_tx_opt_q0; exact Hconf|].
+  eapply low_same_trans; [apply drop_tx_opt_q0; exact Hret|].
+  eapply low_same_trans; [apply fold_drop_cons_q0; exact Hc|]. apply drop_tx_q0. exact Hr.
 Qed.
 
 Lemma notify_slot_keep s rep cons c o c' :
@@ -141,10 +152,10 @@ Qed.
 
 Lemma fold_drop_slots_q0 (ss : list (N * slot)) : forall m,
   (forall n s, In (n, s) ss -> slot_ok s) ->
-  alookup 0 (fold_left (fun m '(_, s') => drop_slot_qs s' m) ss m) = alookup 0 m.
+  low_same (fold_left (fun m '(_, s') => drop_slot_qs s' m) ss m) m.
 Proof.
-  induction ss as [|[n s] ss IH]; intros m H; cbn [fold_left]; [reflexivity|].
-  rewrite IH by (intros; eapply H; right; eassumption).
+  induction ss as [|[n s] ss IH]; intros m H; cbn [fold_left]; [apply low_same_refl|].
+  eapply low_same_trans; [apply IH; intros; eapply H; right; eassumption|].
   apply drop_slot_qs_q0. eapply H; left; reflexivity.
 Qed.
 
@@ -215,30 +226,53 @@ Qed.
 
 (* ---------- the strengthened invariant used for sequences ---------- *)
 
+(* channel 0's own mailbox carries only Send / ConnectionClose (the Connection handle has no
+   listener registrations to send there) *)
+Definition plain_msg (m : msg) : Prop :=
+  match m with MsgSend _ | MsgConnClose _ => True | _ => False end.
+
+(* at most one allocation request is outstanding, and while it is the reply queue (id 1,
+   capacity 1) is empty: IoLoopHandle0::allocate_channel sends one request and waits for
+   its reply, and Connection::open_channel takes &mut self *)
+Definition alloc_ok (c : core) (z : ch0slot) : Prop :=
+  (length (z_alloc_req z) <= 1)%nat /\
+  (z_alloc_req z <> [] ->
+   exists qu, alookup 1 (c_qs c) = Some qu /\ q_items qu = [] /\ q_cap qu = Some 1).
+
 Record WFs (c : core) : Prop := {
   w_ch0 : c_phase c = PSteady ->
-          exists z, c_ch0 c = Some z /\ z_reply z = 0 /\ z_blocked z <> Some 0 /\
-                    (forall q, In q (z_setb z) -> q <> 0) /\ q0_room (c_qs c);
+          exists z, c_ch0 c = Some z /\ z_reply z = 0 /\ z_alloc_rep z = 1 /\ free_opt (z_blocked z) /\
+                    (forall q, In q (z_setb z) -> 2 <= q) /\ q0_room (c_qs c) /\
+                    Forall plain_msg (z_mail z) /\ alloc_ok c z;
   w_slots : all_slots_ok c;
   w_sealed : (exists code text, c_phase c = PServerClosing code text) \/ c_phase c = PClientException ->
-             ob_sealed (c_out c) = true }.
+             ob_sealed (c_out c) = true;
+  w_ids : Inv (c_ids c);
+  w_nextq : 2 <= c_nextq c;
+  w_ch0_none : c_phase c <> PSteady -> c_ch0 c = None }.
 
 Lemma keep_WFs c c' :
   WFs c -> keep c c' -> all_slots_ok c' -> WFs c'.
 Proof.
-  intros [W1 W2 W3] [K1 K2 K3 K4] Hs. constructor.
-  - rewrite K1. intro Hp. destruct (W1 Hp) as (z & Hz & Hr & Hb & Hsb & (qu & Hq & Hi & Hc)).
-    exists z. rewrite K2. repeat split; try assumption. exists qu. rewrite K4. auto.
+  intros [W1 W2 W3 W4 W5 W6] [K1 K2 Ki Hn K3 K4] Hs. constructor.
+  - rewrite K1. intro Hp.
+    destruct (W1 Hp) as (z & Hz & Hr & Ha & Hb & Hsb & (qu & Hq & Hi & Hc) & Hm & (Hal1 & Hal2)).
+    exists z. rewrite K2. repeat split; try assumption.
+    + exists qu. rewrite (K4 0) by lia. auto.
+    + intro Hne. destruct (Hal2 Hne) as (q1 & Hq1 & Hq1i & Hq1c). exists q1. rewrite (K4 1) by lia. auto.
   - exact Hs.
   - rewrite K1. intro Hp. apply K3. apply W3. exact Hp.
+  - rewrite Ki. exact W4.
+  - rewrite Hn. exact W5.
+  - rewrite K1, K2. exact W6.
 Qed.
 
 (* slot updates that keep slot_ok *)
 Lemma slot_ok_with_coll s st : slot_ok s -> slot_ok (with_coll s st).
 Proof. destruct s; intro H; exact H. Qed.
-Lemma slot_ok_with_ret s h : slot_ok s -> h <> Some 0 -> slot_ok (with_ret s h).
+Lemma slot_ok_with_ret s h : slot_ok s -> free_opt h -> slot_ok (with_ret s h).
 Proof. destruct s; intros [(a & b & c0 & d) e] Hh; repeat split; assumption. Qed.
-Lemma slot_ok_with_conf s h : slot_ok s -> h <> Some 0 -> slot_ok (with_conf s h).
+Lemma slot_ok_with_conf s h : slot_ok s -> free_opt h -> slot_ok (with_conf s h).
 Proof. destruct s; intros [(a & b & c0 & d) e] Hh; repeat split; assumption. Qed.
 
 Lemma remove_tag_In tag l t q : In (t, q) (remove_tag tag l) -> In (t, q) l.
@@ -251,7 +285,7 @@ Proof.
   destruct s; intros [(a & b & c0 & d) e]; repeat split; try assumption.
   cbn in *. intros t q Hin. eapply b. eapply remove_tag_In. exact Hin.
 Qed.
-Lemma cons_qid_nz r k : cons_qid r k <> 0.
+Lemma cons_qid_nz r k : 2 <= cons_qid r k.
 Proof. unfold cons_qid. lia. Qed.
 Lemma slot_ok_new_consumer s tag : slot_ok s -> slot_ok (with_new_consumer s tag (cons_qid (s_reply s) (s_ncons s))).
 Proof.
@@ -268,13 +302,13 @@ Proof.
 Qed.
 
 Lemma listener_send_q0 h it m h' m' :
-  listener_send h it m = (h', m') -> h <> Some 0 ->
-  alookup 0 m' = alookup 0 m /\ h' <> Some 0.
+  listener_send h it m = (h', m') -> free_opt h ->
+  low_same m' m /\ free_opt h'.
 Proof.
-  unfold listener_send. destruct h as [q|]; [|intro H; inversion H; subst; split; [reflexivity|discriminate]].
-  intros H Hq. assert (Hq0 : q <> 0) by congruence.
+  unfold listener_send. destruct h as [q|]; [|intro H; inversion H; subst; split; [reflexivity|exact I]].
+  intros H Hq. assert (Hq0 : 2 <= q) by exact Hq.
   destruct (try_send q it m) as [r m1] eqn:E. pose proof (try_send_q0 E Hq0) as H0.
-  destruct r; inversion H; subst; (split; [|first [exact Hq | discriminate]]).
+  destruct r; inversion H; subst; (split; [|first [exact Hq | exact I]]).
   - exact H0.
   - apply drop_tx_q0; exact Hq0.
   - apply drop_tx_q0; exact Hq0.
@@ -285,15 +319,21 @@ Qed.
 Lemma ob_append_sealed o bs : ob_sealed o = true -> ob_sealed (ob_append o bs) = true.
 Proof. unfold ob_append. intro H; rewrite H; exact H. Qed.
 
+Lemma drop_ch0_none c : c_ch0 (drop_ch0 c) = None.
+Proof. unfold drop_ch0. destruct (c_ch0 c) eqn:E; [reflexivity | exact E]. Qed.
+
 Lemma client_exception_WFs code text c o c' :
   client_exception code text c = (o, c') -> WFs c -> o = OOk /\ WFs c'.
 Proof.
   unfold client_exception. intros H W. inversion H; subst. split; [reflexivity|].
   constructor.
   - cbn. discriminate.
-  - destruct W as [_ W2 _]. unfold all_slots_ok in *. unfold drop_ch0, seal, push_out.
+  - destruct W as [_ W2 _ _ _ _]. unfold all_slots_ok in *. unfold drop_ch0, seal, push_out.
     cbn. destruct (c_ch0 _); cbn; exact W2.
   - intros _. unfold drop_ch0, seal, push_out. cbn. destruct (c_ch0 _); reflexivity.
+  - unfold drop_ch0, seal, push_out. cbn. destruct (c_ch0 _); cbn; exact (w_ids W).
+  - unfold drop_ch0, seal, push_out. cbn. destruct (c_ch0 _); cbn; exact (w_nextq W).
+  - intros _. cbn. apply drop_ch0_none.
 Qed.
 
 (* ---------- the main step ---------- *)
@@ -302,12 +342,14 @@ Ltac done_keep W K Hs := split; [discriminate || (intros; discriminate) || idtac
 
 Lemma collect_WFs n s r c o c' :
   collect n s r c = (o, c') -> WFs c -> alookup n (c_slots c) = Some s ->
-  (forall site, o <> OPanic site) /\ (o = OOk -> WFs c').
+  (forall site, o <> OPanic site) /\ WFs c'.
 Proof.
   intros H W Hl. pose proof (all_slots_lookup (w_slots W) Hl) as Hok.
   unfold collect in H. destruct r as [|st|k props body].
-  - inversion H; subst. split; [discriminate|discriminate].
-  - inversion H; subst. split; [discriminate|]. intros _.
+  - inversion H; subst. split; [discriminate|].
+    eapply keep_WFs; [exact W | apply mk_keep; try reflexivity |].
+    apply all_slots_set; [exact (w_slots W) | apply slot_ok_with_coll; exact Hok].
+  - inversion H; subst. split; [discriminate|].
     eapply keep_WFs; [exact W | apply mk_keep; try reflexivity |].
     apply all_slots_set; [exact (w_slots W) | apply slot_ok_with_coll; exact Hok].
   - set (s' := with_coll s CNone) in *.
@@ -317,25 +359,50 @@ Proof.
     unfold dispatch in H. destruct k.
     + destruct (lookup_tag tag (s_consumers s')) as [q|] eqn:Et.
       * destruct (lookup_tag_In Et) as (t & Hin).
-        assert (Hq : q <> 0) by (destruct Hok' as [(_ & Hc & _) _]; eapply Hc; exact Hin).
-        split; [eapply send_no_panic; exact H|]. intros _.
+        assert (Hq : 2 <= q) by (destruct Hok' as [(_ & Hc & _) _]; eapply Hc; exact Hin).
+        split; [eapply send_no_panic; exact H|].
         eapply keep_WFs; [exact W | eapply keep_trans; [exact K0 | eapply send_keep; [exact H|exact Hq]] |].
         unfold all_slots_ok. rewrite (send_slots H). exact Hall.
-      * inversion H; subst. split; discriminate.
+      * inversion H; subst. split; [discriminate|].
+        eapply keep_WFs; [exact W | exact K0 | exact Hall].
     + destruct (listener_send (s_ret s') _ (c_qs (set_slot c n s'))) as [h qm] eqn:El.
-      inversion H; subst. split; [discriminate|]. intros _.
-      assert (Hr : s_ret s' <> Some 0) by (destruct Hok' as [(_ & _ & Hr & _) _]; exact Hr).
+      inversion H; subst. split; [discriminate|].
+      assert (Hr : free_opt (s_ret s')) by (destruct Hok' as [(_ & _ & Hr & _) _]; exact Hr).
       destruct (listener_send_q0 El Hr) as (H0 & Hh).
       eapply keep_WFs; [exact W | apply mk_keep; try reflexivity; cbn; exact H0 |].
       apply all_slots_set; [|apply slot_ok_with_ret; assumption].
       intros k v Hin. eapply Hall. exact Hin.
-    + assert (Hq : s_reply s' <> 0) by (destruct Hok' as [(Hr & _) _]; exact Hr).
-      split; [eapply send_no_panic; exact H|]. intros _.
+    + assert (Hq : 2 <= s_reply s') by (destruct Hok' as [(Hr & _) _]; exact Hr).
+      split; [eapply send_no_panic; exact H|].
       eapply keep_WFs; [exact W | eapply keep_trans; [exact K0 | eapply send_keep; [exact H|exact Hq]] |].
       unfold all_slots_ok. rewrite (send_slots H). exact Hall.
 Qed.
 
 (* ---------- methods on a non-zero channel ---------- *)
+
+Lemma Inv_remove n ids : Inv ids -> Inv (snd (remove n ids)).
+Proof.
+  intro H. pose proof (@step_refines ids (Close n) H eq_refl) as R. cbn [step] in R.
+  destruct (remove n ids) as [r s']. destruct R as (_ & Hi & _). exact Hi.
+Qed.
+
+Lemma Inv_drain ids : Inv ids -> Inv (snd (drain ids)).
+Proof.
+  intro H. pose proof (@step_refines ids Drain H eq_refl) as R. cbn [step] in R.
+  destruct (drain ids) as [r s']. destruct R as (_ & Hi & _). exact Hi.
+Qed.
+
+Lemma WFs_remove_slot n c : WFs c -> WFs (remove_slot n c).
+Proof.
+  intros [W1 W2 W3 W4 W5 W6]. constructor.
+  - exact W1.
+  - apply all_slots_remove. exact W2.
+  - exact W3.
+  - cbn. apply Inv_remove. exact W4.
+  - exact W5.
+  - exact W6.
+Qed.
+
 
 Lemma push_out_keep c bs : keep c (push_out c bs).
 Proof.
@@ -349,48 +416,48 @@ Proof. unfold all_slots_ok. intros E H. rewrite E. exact H. Qed.
 
 Lemma process_method_WFs n m dbg c o c' :
   process_method n m dbg c = (o, c') -> WFs c ->
-  (forall site, o <> OPanic site) /\ (o = OOk -> WFs c').
+  (forall site, o <> OPanic site) /\ WFs c'.
 Proof.
   intros H W. unfold process_method in H.
   assert (Hexc : forall code text o c', client_exception code text c = (o, c') ->
-                 (forall site, o <> OPanic site) /\ (o = OOk -> WFs c')).
-  { intros code text o0 c0 He. destruct (client_exception_WFs He W) as [-> W']. split; [discriminate|auto]. }
+                 (forall site, o <> OPanic site) /\ WFs c').
+  { intros code text o0 c0 He. destruct (client_exception_WFs He W) as [-> W']. split; [discriminate|exact W']. }
   destruct m; try (eapply Hexc; exact H).
   - (* channel close *)
-    destruct (alookup n (c_slots c)) as [sl|] eqn:Hl; [|inversion H; subst; split; discriminate].
+    destruct (alookup n (c_slots c)) as [sl|] eqn:Hl; [|inversion H; subst; split; [discriminate|exact W]].
     pose proof (all_slots_lookup (w_slots W) Hl) as Hok.
     destruct (notify_slot sl _ _ (remove_slot n c)) as [o1 c1] eqn:E.
     destruct (notify_slot_keep E Hok) as (K & S & Np).
     assert (W1 : WFs c1).
-    { eapply keep_WFs; [exact W | eapply keep_trans; [|exact K]; apply mk_keep; try reflexivity |].
+    { eapply keep_WFs; [apply WFs_remove_slot; exact W | exact K |].
       eapply all_slots_eq; [exact S|]. apply all_slots_remove. exact (w_slots W). }
-    destruct o1; inversion H; subst; (split; [first [discriminate | exact Np]|]); intro Hx; try discriminate.
+    destruct o1; inversion H; subst; (split; [first [discriminate | exact Np]|]); try exact W1.
     eapply keep_WFs; [exact W1 | apply push_out_keep | exact (w_slots W1)].
   - (* channel close-ok *)
-    destruct (alookup n (c_slots c)) as [sl|] eqn:Hl; [|inversion H; subst; split; [discriminate|auto]].
+    destruct (alookup n (c_slots c)) as [sl|] eqn:Hl; [|inversion H; subst; split; [discriminate|exact W]].
     pose proof (all_slots_lookup (w_slots W) Hl) as Hok.
     destruct (notify_slot_keep H Hok) as (K & S & Np).
-    split; [exact Np|]. intros _.
-    eapply keep_WFs; [exact W | eapply keep_trans; [|exact K]; apply mk_keep; try reflexivity |].
+    split; [exact Np|].
+    eapply keep_WFs; [apply WFs_remove_slot; exact W | exact K |].
     eapply all_slots_eq; [exact S|]. apply all_slots_remove. exact (w_slots W).
   - (* consume-ok *)
-    destruct (alookup n (c_slots c)) as [sl|] eqn:Hl; [|inversion H; subst; split; discriminate].
+    destruct (alookup n (c_slots c)) as [sl|] eqn:Hl; [|inversion H; subst; split; [discriminate|exact W]].
     pose proof (all_slots_lookup (w_slots W) Hl) as Hok.
-    destruct (lookup_tag tag (s_consumers sl)); [inversion H; subst; split; discriminate|].
-    split; [eapply send_no_panic; exact H|]. intros _.
-    assert (Hr : s_reply sl <> 0) by (destruct Hok as [(Hr & _) _]; exact Hr).
+    destruct (lookup_tag tag (s_consumers sl)); [inversion H; subst; split; [discriminate|exact W]|].
+    split; [eapply send_no_panic; exact H|].
+    assert (Hr : 2 <= s_reply sl) by (destruct Hok as [(Hr & _) _]; exact Hr).
     eapply keep_WFs; [exact W | eapply keep_trans; [|eapply send_keep; [exact H|exact Hr]] |].
-    + apply mk_keep; try reflexivity. cbn.
-      apply alookup_insert_neq. intro E. symmetry in E. exact (cons_qid_nz E).
+    + apply mk_keep; try reflexivity. cbn. intros k Hk.
+      apply alookup_insert_neq. pose proof (@cons_qid_nz (s_reply sl) (s_ncons sl)). lia.
     + eapply all_slots_eq; [eapply send_slots; exact H|].
       apply all_slots_set; [|apply slot_ok_new_consumer; exact Hok].
       intros k v Hin. eapply (w_slots W). exact Hin.
   - (* cancel *)
-    destruct (alookup n (c_slots c)) as [sl|] eqn:Hl; [|inversion H; subst; split; discriminate].
+    destruct (alookup n (c_slots c)) as [sl|] eqn:Hl; [|inversion H; subst; split; [discriminate|exact W]].
     pose proof (all_slots_lookup (w_slots W) Hl) as Hok.
     destruct (lookup_tag tag (s_consumers sl)) as [q|] eqn:Et.
     + destruct (lookup_tag_In Et) as (t & Hin).
-      assert (Hq : q <> 0) by (destruct Hok as [(_ & Hc & _) _]; eapply Hc; exact Hin).
+      assert (Hq : 2 <= q) by (destruct Hok as [(_ & Hc & _) _]; eapply Hc; exact Hin).
       destruct (send q IServerCancelled _) as [o1 c1] eqn:E.
       pose proof (send_keep E Hq) as K1. pose proof (send_slots E) as S1. pose proof (send_no_panic E) as N1.
       assert (W2 : WFs (set_qs c1 (drop_tx q (c_qs c1)))).
@@ -401,15 +468,14 @@ Proof.
         - eapply all_slots_eq; [cbn; exact S1|].
           apply all_slots_set; [exact (w_slots W)|apply slot_ok_remove_tag; exact Hok]. }
       destruct o1; [destruct nowait|..]; inversion H; subst;
-        (split; [first [discriminate | exact N1]|]); intro Hx; try discriminate.
-      * exact W2.
-      * eapply keep_WFs; [exact W2 | apply push_out_keep | exact (w_slots W2)].
-    + destruct nowait; inversion H; subst; (split; [discriminate|]); intros _; [exact W|].
+        (split; [first [discriminate | exact N1]|]); try exact W2.
+      eapply keep_WFs; [exact W2 | apply push_out_keep | exact (w_slots W2)].
+    + destruct nowait; inversion H; subst; (split; [discriminate|]); [exact W|].
       eapply keep_WFs; [exact W | apply push_out_keep | exact (w_slots W)].
   - (* cancel-ok *)
-    destruct (alookup n (c_slots c)) as [sl|] eqn:Hl; [|inversion H; subst; split; discriminate].
+    destruct (alookup n (c_slots c)) as [sl|] eqn:Hl; [|inversion H; subst; split; [discriminate|exact W]].
     pose proof (all_slots_lookup (w_slots W) Hl) as Hok.
-    assert (Hr : s_reply sl <> 0) by (destruct Hok as [(Hr & _) _]; exact Hr).
+    assert (Hr : 2 <= s_reply sl) by (destruct Hok as [(Hr & _) _]; exact Hr).
     destruct (send (s_reply sl) _ _) as [o1 c1] eqn:E.
     pose proof (send_keep E Hr) as K1. pose proof (send_slots E) as S1. pose proof (send_no_panic E) as N1.
     assert (W1 : WFs c1).
@@ -419,51 +485,59 @@ Proof.
     destruct o1.
     + destruct (lookup_tag tag (s_consumers sl)) as [q|] eqn:Et.
       * destruct (lookup_tag_In Et) as (t & Hin).
-        assert (Hq : q <> 0) by (destruct Hok as [(_ & Hc & _) _]; eapply Hc; exact Hin).
+        assert (Hq : 2 <= q) by (destruct Hok as [(_ & Hc & _) _]; eapply Hc; exact Hin).
         destruct (send q IClientCancelled c1) as [o2 c2] eqn:E2.
-        inversion H; subst. split; [eapply send_no_panic; exact E2|]. intros _.
+        inversion H; subst. split; [eapply send_no_panic; exact E2|].
         eapply keep_WFs; [exact W1 | eapply keep_trans; [eapply send_keep; [exact E2|exact Hq]|] |].
         -- apply mk_keep; try reflexivity. cbn. apply drop_tx_q0; exact Hq.
         -- eapply all_slots_eq; [cbn; eapply send_slots; exact E2|]. exact (w_slots W1).
-      * inversion H; subst. split; [discriminate|]. intros _. exact W1.
-    + inversion H; subst. split; discriminate.
-    + inversion H; subst. split; [exact N1|discriminate].
-  - destruct (alookup n (c_slots c)) as [sl|] eqn:Hl; [|inversion H; subst; split; discriminate].
+      * inversion H; subst. split; [discriminate|]. exact W1.
+    + inversion H; subst. split; [discriminate|].
+      eapply keep_WFs; [exact W1 | apply mk_keep; try reflexivity; cbn | exact (w_slots W1)].
+      destruct (lookup_tag tag (s_consumers sl)) as [q|] eqn:Et; [|reflexivity].
+      destruct (lookup_tag_In Et) as (t & Hin). apply drop_tx_q0.
+      destruct Hok as [(_ & Hc & _) _]; eapply Hc; exact Hin.
+    + inversion H; subst. split; [exact N1|].
+      eapply keep_WFs; [exact W1 | apply mk_keep; try reflexivity; cbn | exact (w_slots W1)].
+      destruct (lookup_tag tag (s_consumers sl)) as [q|] eqn:Et; [|reflexivity].
+      destruct (lookup_tag_In Et) as (t & Hin). apply drop_tx_q0.
+      destruct Hok as [(_ & Hc & _) _]; eapply Hc; exact Hin.
+  - destruct (alookup n (c_slots c)) as [sl|] eqn:Hl; [|inversion H; subst; split; [discriminate|exact W]].
     eapply collect_WFs; eassumption.
-  - destruct (alookup n (c_slots c)) as [sl|] eqn:Hl; [|inversion H; subst; split; discriminate].
+  - destruct (alookup n (c_slots c)) as [sl|] eqn:Hl; [|inversion H; subst; split; [discriminate|exact W]].
     eapply collect_WFs; eassumption.
-  - destruct (alookup n (c_slots c)) as [sl|] eqn:Hl; [|inversion H; subst; split; discriminate].
+  - destruct (alookup n (c_slots c)) as [sl|] eqn:Hl; [|inversion H; subst; split; [discriminate|exact W]].
     eapply collect_WFs; eassumption.
   - (* get-empty *)
-    destruct (alookup n (c_slots c)) as [sl|] eqn:Hl; [|inversion H; subst; split; discriminate].
+    destruct (alookup n (c_slots c)) as [sl|] eqn:Hl; [|inversion H; subst; split; [discriminate|exact W]].
     pose proof (all_slots_lookup (w_slots W) Hl) as Hok.
-    assert (Hr : s_reply sl <> 0) by (destruct Hok as [(Hr & _) _]; exact Hr).
-    split; [eapply send_no_panic; exact H|]. intros _.
+    assert (Hr : 2 <= s_reply sl) by (destruct Hok as [(Hr & _) _]; exact Hr).
+    split; [eapply send_no_panic; exact H|].
     eapply keep_WFs; [exact W | eapply send_keep; [exact H|exact Hr] |].
     eapply all_slots_eq; [eapply send_slots; exact H|exact (w_slots W)].
   - (* ack *)
-    destruct (alookup n (c_slots c)) as [sl|] eqn:Hl; [|inversion H; subst; split; discriminate].
+    destruct (alookup n (c_slots c)) as [sl|] eqn:Hl; [|inversion H; subst; split; [discriminate|exact W]].
     pose proof (all_slots_lookup (w_slots W) Hl) as Hok.
     destruct (listener_send (s_conf sl) _ (c_qs c)) as [h qm] eqn:El.
-    assert (Hc : s_conf sl <> Some 0) by (destruct Hok as [(_ & _ & _ & Hc) _]; exact Hc).
+    assert (Hc : free_opt (s_conf sl)) by (destruct Hok as [(_ & _ & _ & Hc) _]; exact Hc).
     destruct (listener_send_q0 El Hc) as (H0 & Hh).
-    inversion H; subst. split; [discriminate|]. intros _.
+    inversion H; subst. split; [discriminate|].
     eapply keep_WFs; [exact W | apply mk_keep; try reflexivity; cbn; exact H0 |].
     apply all_slots_set; [exact (w_slots W)|apply slot_ok_with_conf; assumption].
   - (* nack *)
-    destruct (alookup n (c_slots c)) as [sl|] eqn:Hl; [|inversion H; subst; split; discriminate].
+    destruct (alookup n (c_slots c)) as [sl|] eqn:Hl; [|inversion H; subst; split; [discriminate|exact W]].
     pose proof (all_slots_lookup (w_slots W) Hl) as Hok.
     destruct (listener_send (s_conf sl) _ (c_qs c)) as [h qm] eqn:El.
-    assert (Hc : s_conf sl <> Some 0) by (destruct Hok as [(_ & _ & _ & Hc) _]; exact Hc).
+    assert (Hc : free_opt (s_conf sl)) by (destruct Hok as [(_ & _ & _ & Hc) _]; exact Hc).
     destruct (listener_send_q0 El Hc) as (H0 & Hh).
-    inversion H; subst. split; [discriminate|]. intros _.
+    inversion H; subst. split; [discriminate|].
     eapply keep_WFs; [exact W | apply mk_keep; try reflexivity; cbn; exact H0 |].
     apply all_slots_set; [exact (w_slots W)|apply slot_ok_with_conf; assumption].
   - (* generic replies *)
-    destruct (alookup n (c_slots c)) as [sl|] eqn:Hl; [|inversion H; subst; split; discriminate].
+    destruct (alookup n (c_slots c)) as [sl|] eqn:Hl; [|inversion H; subst; split; [discriminate|exact W]].
     pose proof (all_slots_lookup (w_slots W) Hl) as Hok.
-    assert (Hr : s_reply sl <> 0) by (destruct Hok as [(Hr & _) _]; exact Hr).
-    split; [eapply send_no_panic; exact H|]. intros _.
+    assert (Hr : 2 <= s_reply sl) by (destruct Hok as [(Hr & _) _]; exact Hr).
+    split; [eapply send_no_panic; exact H|].
     eapply keep_WFs; [exact W | eapply send_keep; [exact H|exact Hr] |].
     eapply all_slots_eq; [eapply send_slots; exact H|exact (w_slots W)].
 Qed.
@@ -474,18 +548,22 @@ Lemma drop_ch0_slots c : c_slots (drop_ch0 c) = c_slots c.
 Proof. unfold drop_ch0. destruct (c_ch0 c); reflexivity. Qed.
 Lemma drop_ch0_out c : c_out (drop_ch0 c) = c_out c.
 Proof. unfold drop_ch0. destruct (c_ch0 c); reflexivity. Qed.
+Lemma drop_ch0_ids c : c_ids (drop_ch0 c) = c_ids c.
+Proof. unfold drop_ch0. destruct (c_ch0 c); reflexivity. Qed.
+Lemma drop_ch0_nextq c : c_nextq (drop_ch0 c) = c_nextq c.
+Proof. unfold drop_ch0. destruct (c_ch0 c); reflexivity. Qed.
 
 Lemma sort_slots_ok c : all_slots_ok c -> forall n s, In (n, s) (sort_slots (c_slots c)) -> slot_ok s.
 Proof. intros H n s Hin. eapply H. apply (proj1 (sort_slots_In _ _)). exact Hin. Qed.
 
 (* after a connection-level close every slot is gone *)
 Lemma drain_slots_WFs rep cons c o c' ph :
-  drain_slots rep cons c = (o, c') -> all_slots_ok c ->
-  c_phase c = ph -> ph <> PSteady ->
+  drain_slots rep cons c = (o, c') -> all_slots_ok c -> Inv (c_ids c) -> 2 <= c_nextq c ->
+  c_ch0 c = None -> c_phase c = ph -> ph <> PSteady ->
   (ob_sealed (c_out c) = true \/ ph = PClientClosed) ->
   (forall site, o <> OPanic site) /\ WFs c'.
 Proof.
-  intros H Hok Hph Hns Hseal. unfold drain_slots in H.
+  intros H Hok Hinv Hnq Hnone Hph Hns Hseal. unfold drain_slots in H.
   set (c1 := set_slots c (snd (drain (c_ids c))) []) in *.
   destruct (notify_all_keep H (sort_slots_ok Hok)) as (K & S & Np).
   split; [exact Np|]. constructor.
@@ -494,19 +572,22 @@ Proof.
   - rewrite (k_phase K). cbn. rewrite Hph. intro Hp. apply (k_out K). cbn.
     destruct Hseal as [Hs|Hc]; [exact Hs|]. exfalso. rewrite Hc in Hp.
     destruct Hp as [(code & text & E)|E]; discriminate E.
+  - rewrite (k_ids K). cbn. apply Inv_drain. exact Hinv.
+  - rewrite (k_nextq K). cbn. exact Hnq.
+  - intros _. rewrite (k_ch0 K). cbn. exact Hnone.
 Qed.
 
 Theorem process_WFs c f o c' :
   process c f = (o, c') -> WFs c ->
-  (forall site, o <> OPanic site) /\ (o = OOk -> WFs c').
+  (forall site, o <> OPanic site) /\ WFs c'.
 Proof.
   intros H W. unfold process in H. destruct f as [f dbg].
   destruct (c_phase c) eqn:Hph;
-    try (inversion H; subst; split; [discriminate | first [discriminate | intros _; exact W]]).
+    try (inversion H; subst; split; [discriminate | exact W]).
   assert (Hexc : forall code text o c', client_exception code text c = (o, c') ->
-                 (forall site, o <> OPanic site) /\ (o = OOk -> WFs c')).
-  { intros code text o0 c0 He. destruct (client_exception_WFs He W) as [-> W']. split; [discriminate|auto]. }
-  destruct (w_ch0 W Hph) as (z & Hz & Hzr & Hzb & Hsb & (qu & Hq0 & Hq0i & Hq0c)).
+                 (forall site, o <> OPanic site) /\ WFs c').
+  { intros code text o0 c0 He. destruct (client_exception_WFs He W) as [-> W']. split; [discriminate|exact W']. }
+  destruct (w_ch0 W Hph) as (z & Hz & Hzr & Hza & Hzb & Hsb & (qu & Hq0 & Hq0i & Hq0c) & Hzm & Hzal).
   destruct f as [ch m|ch size props|ch body|ch|].
   - destruct ch as [|p].
     + (* channel 0 methods *)
@@ -515,74 +596,98 @@ Proof.
         match type of H with drain_slots ?r ?k ?cc = _ =>
           destruct (@drain_slots_WFs r k cc o c' (PServerClosing code text) H) as (Np & W') end.
         -- unfold all_slots_ok. cbn. rewrite drop_ch0_slots. cbn. exact (w_slots W).
+        -- cbn. rewrite drop_ch0_ids. exact (w_ids W).
+        -- cbn. rewrite drop_ch0_nextq. exact (w_nextq W).
+        -- cbn. apply drop_ch0_none.
         -- reflexivity.
         -- discriminate.
         -- left. cbn. rewrite drop_ch0_out. reflexivity.
-        -- split; [exact Np | intros _; exact W'].
+        -- split; [exact Np | exact W'].
       * (* server confirms our close *)
         rewrite Hz in H. rewrite Hzr in H.
         unfold try_send in H. rewrite Hq0 in H.
-        destruct (negb (q_rx qu)); [inversion H; subst; split; discriminate|].
+        destruct (negb (q_rx qu)); [inversion H; subst; split; [discriminate|exact W]|].
         rewrite Hq0c, Hq0i in H. cbn [length N.of_nat] in H.
         assert (Hb : (c_reply_queue_bound <=? 0) = false) by reflexivity.
         rewrite Hb in H.
         match type of H with drain_slots ?r ?k ?cc = _ =>
           destruct (@drain_slots_WFs r k cc o c' PClientClosed H) as (Np & W') end.
         -- unfold all_slots_ok. cbn. rewrite drop_ch0_slots. cbn. exact (w_slots W).
+        -- cbn. rewrite drop_ch0_ids. exact (w_ids W).
+        -- cbn. rewrite drop_ch0_nextq. exact (w_nextq W).
+        -- cbn. apply drop_ch0_none.
         -- reflexivity.
         -- discriminate.
         -- right. reflexivity.
-        -- split; [exact Np | intros _; exact W'].
+        -- split; [exact Np | exact W'].
       * (* blocked *)
         rewrite Hz in H.
         destruct (listener_send (z_blocked z) _ (c_qs c)) as [h m'] eqn:El.
         destruct (listener_send_q0 El Hzb) as (H0 & Hh).
-        inversion H; subst. split; [discriminate|]. intros _. constructor.
-        -- intros _. eexists. split; [reflexivity|]. cbn. repeat split; try assumption.
-           exists qu. rewrite H0. auto.
+        inversion H; subst. split; [discriminate|]. constructor.
+        -- intros _. eexists. split; [reflexivity|]. cbn.
+           refine (conj Hzr (conj Hza (conj Hh (conj Hsb (conj _ (conj Hzm _)))))).
+           ++ exists qu. rewrite (H0 0) by lia. auto.
+           ++ destruct Hzal as [Ha1 Ha2]. split; [exact Ha1|]. cbn. intro Hne.
+              destruct (Ha2 Hne) as (q1 & Hq1 & Hq1r). exists q1. rewrite (H0 1) by lia. auto.
         -- exact (w_slots W).
         -- cbn. rewrite Hph. intros [(a & b & E)|E]; discriminate.
+        -- exact (w_ids W).
+        -- exact (w_nextq W).
+        -- cbn. intro Hx. rewrite Hph in Hx. contradiction.
       * (* unblocked *)
         rewrite Hz in H.
         destruct (listener_send (z_blocked z) _ (c_qs c)) as [h m'] eqn:El.
         destruct (listener_send_q0 El Hzb) as (H0 & Hh).
-        inversion H; subst. split; [discriminate|]. intros _. constructor.
-        -- intros _. eexists. split; [reflexivity|]. cbn. repeat split; try assumption.
-           exists qu. rewrite H0. auto.
+        inversion H; subst. split; [discriminate|]. constructor.
+        -- intros _. eexists. split; [reflexivity|]. cbn.
+           refine (conj Hzr (conj Hza (conj Hh (conj Hsb (conj _ (conj Hzm _)))))).
+           ++ exists qu. rewrite (H0 0) by lia. auto.
+           ++ destruct Hzal as [Ha1 Ha2]. split; [exact Ha1|]. cbn. intro Hne.
+              destruct (Ha2 Hne) as (q1 & Hq1 & Hq1r). exists q1. rewrite (H0 1) by lia. auto.
         -- exact (w_slots W).
         -- cbn. rewrite Hph. intros [(a & b & E)|E]; discriminate.
+        -- exact (w_ids W).
+        -- exact (w_nextq W).
+        -- cbn. intro Hx. rewrite Hph in Hx. contradiction.
     + eapply process_method_WFs; eassumption.
   - destruct ch as [|p]; [eapply Hexc; exact H|].
-    destruct (alookup _ (c_slots c)) as [sl|] eqn:Hl; [|inversion H; subst; split; discriminate].
+    destruct (alookup _ (c_slots c)) as [sl|] eqn:Hl; [|inversion H; subst; split; [discriminate|exact W]].
     eapply collect_WFs; eassumption.
   - destruct ch as [|p]; [eapply Hexc; exact H|].
-    destruct (alookup _ (c_slots c)) as [sl|] eqn:Hl; [|inversion H; subst; split; discriminate].
+    destruct (alookup _ (c_slots c)) as [sl|] eqn:Hl; [|inversion H; subst; split; [discriminate|exact W]].
     eapply collect_WFs; eassumption.
-  - destruct ch; inversion H; subst; split; try discriminate. intros _; exact W.
-  - inversion H; subst; split; discriminate.
+  - destruct ch; inversion H; subst; split; try discriminate; exact W.
+  - inversion H; subst; split; [discriminate|exact W].
 Qed.
 
 (* C07: no finite sequence of frames, of any kind, panics or blocks the I/O thread *)
 Theorem process_all_WFs fs : forall c o c',
   process_all c fs = (o, c') -> WFs c ->
-  (forall site, o <> OPanic site) /\ (o = OOk -> WFs c').
+  (forall site, o <> OPanic site) /\ WFs c'.
 Proof.
   induction fs as [|f fs IH]; intros c o c' H W; cbn [process_all] in H.
-  - inversion H; subst. split; [discriminate | intros _; exact W].
+  - inversion H; subst. split; [discriminate | exact W].
   - destruct (process c f) as [o1 c1] eqn:E. destruct (process_WFs E W) as (Np & Hw).
-    destruct o1; [eapply IH; [exact H | apply Hw; reflexivity] | ..];
-      inversion H; subst; (split; [exact Np | discriminate]).
+    destruct o1; [eapply IH; [exact H | exact Hw] | ..];
+      inversion H; subst; (split; [exact Np | exact Hw]).
 Qed.
 
 (* the state right after the handshake satisfies the invariant *)
-Lemma WFs_init mx bound : WFs (init_core mx bound).
+Lemma WFs_init mx bound : mx <= 65535 -> WFs (init_core mx bound).
 Proof.
-  constructor.
-  - intros _. eexists. split; [reflexivity|]. cbn. repeat split; try discriminate.
+  intro Hmx. constructor.
+  - intros _. eexists. split; [reflexivity|]. cbn.
+    refine (conj eq_refl (conj eq_refl (conj I (conj _ (conj _ (conj _ _)))))).
     + intros q [].
     + eexists. split; [reflexivity|]. split; reflexivity.
+    + constructor.
+    + split; [cbn; lia|]. cbn. intro Hne. exfalso. apply Hne. reflexivity.
   - intros n s [].
   - cbn. intros [(a & b & E)|E]; discriminate.
+  - cbn. apply Inv_new. exact Hmx.
+  - cbn. lia.
+  - cbn. intro Hx. contradiction.
 Qed.
 
 (* ---------- the client-exception path (C07) ---------- *)
@@ -616,4 +721,405 @@ Theorem exception_codes c dbg :
 Proof.
   intro H. unfold process. rewrite H. repeat split; intros; try reflexivity;
     (destruct n; [contradiction|reflexivity]).
+Qed.
+
+(* ====================== events (C20) ====================== *)
+
+Lemma seal_push_keep c bs : keep c (seal (push_out c bs)).
+Proof. constructor; try reflexivity. Qed.
+
+Lemma slot_ok_with_mail s l : slot_ok s -> (forall x, In x l -> In x (s_mail s)) -> slot_ok (with_mail s l).
+Proof.
+  destruct s; intros [Hq Hm] Hsub; split; [exact Hq|]. cbn in *.
+  intros x Hx. apply Hm. apply Hsub. exact Hx.
+Qed.
+
+(* a mailbox message of a non-zero channel whose slot exists *)
+Lemma channel_message_WFs n m c o c' s :
+  channel_message n m c = (o, c') -> WFs c -> n <> 0 ->
+  alookup n (c_slots c) = Some s -> free_opt (msg_q m) ->
+  (forall site, o <> OPanic site) /\ WFs c'.
+Proof.
+  intros H W Hn Hl Hfree. pose proof (all_slots_lookup (w_slots W) Hl) as Hok.
+  assert (Hn0 : (n =? 0) = false) by (apply N.eqb_neq; exact Hn).
+  destruct m as [buf|buf|h|h]; cbn [channel_message] in H.
+  - inversion H; subst. split; [discriminate|].
+    eapply keep_WFs; [exact W | apply push_out_keep | exact (w_slots W)].
+  - inversion H; subst. split; [discriminate|].
+    eapply keep_WFs; [exact W | apply seal_push_keep | exact (w_slots W)].
+  - rewrite Hn0, Hl in H. inversion H; subst. split; [discriminate|].
+    assert (Hr : free_opt (s_ret s)) by (destruct Hok as [(_ & _ & Hr & _) _]; exact Hr).
+    eapply keep_WFs; [exact W | apply mk_keep; try reflexivity; cbn; apply drop_tx_opt_q0; exact Hr |].
+    apply all_slots_set; [exact (w_slots W)|]. apply slot_ok_with_ret; [exact Hok|].
+    destruct h; exact Hfree.
+  - rewrite Hn0, Hl in H. inversion H; subst. split; [discriminate|].
+    assert (Hr : free_opt (s_conf s)) by (destruct Hok as [(_ & _ & _ & Hr) _]; exact Hr).
+    eapply keep_WFs; [exact W | apply mk_keep; try reflexivity; cbn; apply drop_tx_opt_q0; exact Hr |].
+    apply all_slots_set; [exact (w_slots W)|]. apply slot_ok_with_conf; [exact Hok|].
+    destruct h; exact Hfree.
+Qed.
+
+Lemma chan_readable_WFs fuel n : forall c o c',
+  chan_readable fuel n c = (o, c') -> WFs c -> n <> 0 ->
+  (forall site, o <> OPanic site) /\ WFs c'.
+Proof.
+  induction fuel as [|fuel IH]; intros c o c' H W Hn; cbn [chan_readable] in H.
+  - inversion H; subst. split; [discriminate|exact W].
+  - destruct (alookup n (c_slots c)) as [s|] eqn:Hl; [|inversion H; subst; split; [discriminate|exact W]].
+    pose proof (all_slots_lookup (w_slots W) Hl) as Hok.
+    destruct (s_mail s) as [|m rest] eqn:Hm.
+    + destruct (s_mail_tx s); inversion H; subst; split; try discriminate; auto.
+    + set (c1 := set_slot c n (with_mail s rest)) in *.
+      assert (W1 : WFs c1).
+      { eapply keep_WFs; [exact W | apply mk_keep; reflexivity |].
+        apply all_slots_set; [exact (w_slots W)|]. apply slot_ok_with_mail; [exact Hok|].
+        intros x Hx. rewrite Hm. right; exact Hx. }
+      assert (Hl1 : alookup n (c_slots c1) = Some (with_mail s rest))
+        by (unfold c1, set_slot, set_slots; cbn; apply alookup_insert_eq).
+      assert (Hf : free_opt (msg_q m)).
+      { destruct Hok as [_ Hmail]. apply Hmail. rewrite Hm. left; reflexivity. }
+      destruct (channel_message n m c1) as [o1 c2] eqn:E.
+      destruct (channel_message_WFs E W1 Hn Hl1 Hf) as (Np & Hw).
+      destruct o1; [eapply IH; [exact H | exact Hw | exact Hn] | ..];
+        inversion H; subst; (split; [exact Np | exact Hw]).
+Qed.
+
+Lemma WFs_set_ch0 c z z' :
+  WFs c -> c_phase c = PSteady -> c_ch0 c = Some z ->
+  z_reply z' = z_reply z -> z_alloc_rep z' = z_alloc_rep z -> free_opt (z_blocked z') ->
+  (forall q, In q (z_setb z') -> 2 <= q) -> Forall plain_msg (z_mail z') ->
+  z_alloc_req z' = z_alloc_req z ->
+  WFs (set_ch0 c (Some z')).
+Proof.
+  intros W Hph Hz Hr Ha Hb Hs Hm Hq.
+  destruct (w_ch0 W Hph) as (z0 & Hz0 & Hzr & Hza & Hzb & Hsb & Hroom & Hzm & Hzal).
+  rewrite Hz in Hz0. inversion Hz0; subst z0. constructor.
+  - intros _. exists z'. split; [reflexivity|]. cbn.
+    refine (conj _ (conj _ (conj Hb (conj Hs (conj Hroom (conj Hm _)))))); try congruence.
+    unfold alloc_ok in *. rewrite Hq. exact Hzal.
+  - exact (w_slots W).
+  - exact (w_sealed W).
+  - exact (w_ids W).
+  - exact (w_nextq W).
+  - cbn. intro Hx. rewrite Hph in Hx. contradiction.
+Qed.
+
+
+Lemma steady_of_ch0 c z : WFs c -> c_ch0 c = Some z -> c_phase c = PSteady.
+Proof.
+  intros W Hz. destruct (c_phase c) eqn:Hph; [reflexivity|..];
+    (assert (Hn : c_ch0 c = None) by (apply (w_ch0_none W); rewrite Hph; discriminate);
+     rewrite Hn in Hz; discriminate).
+Qed.
+
+Lemma ch0_readable_WFs fuel : forall c o c',
+  ch0_readable fuel c = (o, c') -> WFs c ->
+  (forall site, o <> OPanic site) /\ WFs c'.
+Proof.
+  induction fuel as [|fuel IH]; intros c o c' H W; cbn [ch0_readable] in H.
+  - inversion H; subst. split; [discriminate|exact W].
+  - destruct (c_ch0 c) as [z|] eqn:Hz; [|inversion H; subst; split; [discriminate|exact W]].
+    pose proof (steady_of_ch0 W Hz) as Hph.
+    destruct (w_ch0 W Hph) as (z0 & Hz0 & Hzr & Hza & Hzb & Hsb & Hroom & Hzm & Hzal).
+    rewrite Hz in Hz0. inversion Hz0; subst z0.
+    destruct (z_mail z) as [|m rest] eqn:Hm.
+    + destruct (z_mail_tx z); inversion H; subst; split; try discriminate; auto.
+    + assert (Hpl : plain_msg m /\ Forall plain_msg rest) by (inversion Hzm; auto).
+      destruct Hpl as [Hpm Hprest].
+      assert (W1 : WFs (set_ch0 c (Some (z_with_mail z rest)))).
+      { eapply WFs_set_ch0; try eassumption; try reflexivity. }
+      destruct m as [buf|buf|h|h]; try contradiction; cbn [channel_message] in H.
+      * eapply IH; [exact H|]. eapply keep_WFs; [exact W1 | apply push_out_keep | exact (w_slots W1)].
+      * eapply IH; [exact H|]. eapply keep_WFs; [exact W1 | apply seal_push_keep | exact (w_slots W1)].
+Qed.
+
+Lemma set_blocked_WFs fuel : forall c o c',
+  set_blocked fuel c = (o, c') -> WFs c ->
+  (forall site, o <> OPanic site) /\ WFs c'.
+Proof.
+  induction fuel as [|fuel IH]; intros c o c' H W; cbn [set_blocked] in H.
+  - inversion H; subst. split; [discriminate|exact W].
+  - destruct (c_ch0 c) as [z|] eqn:Hz; [|inversion H; subst; split; [discriminate|exact W]].
+    pose proof (steady_of_ch0 W Hz) as Hph.
+    destruct (w_ch0 W Hph) as (z0 & Hz0 & Hzr & Hza & Hzb & Hsb & Hroom & Hzm & Hzal).
+    rewrite Hz in Hz0. inversion Hz0; subst z0.
+    destruct (z_setb z) as [|q rest] eqn:Hs.
+    + destruct (z_setb_tx z); inversion H; subst; split; try discriminate; auto.
+    + eapply IH; [exact H|].
+      assert (W0 : WFs (set_qs c (drop_tx_opt (z_blocked z) (c_qs c)))).
+      { eapply keep_WFs; [exact W | apply mk_keep; try reflexivity; cbn; apply drop_tx_opt_q0; exact Hzb
+                          | exact (w_slots W)]. }
+      eapply (@WFs_set_ch0 _ z); try reflexivity; try assumption.
+      * cbn. apply Hsb. try rewrite Hs. left; reflexivity.
+      * cbn. intros q' Hq'. apply Hsb. try rewrite Hs. right; exact Hq'.
+Qed.
+
+Lemma heartbeat_timers_WFs fired : forall c o c',
+  heartbeat_timers fired c = (o, c') -> WFs c ->
+  (forall site, o <> OPanic site) /\ WFs c'.
+Proof.
+  induction fired as [|[k b] fired IH]; intros c o c' H W; cbn [heartbeat_timers] in H.
+  - inversion H; subst. split; [discriminate|exact W].
+  - destruct k, b.
+    + inversion H; subst. split; [discriminate|exact W].
+    + eapply IH; eassumption.
+    + eapply IH; [exact H|]. destruct (ob (c_out c)); [|exact W].
+      eapply keep_WFs; [exact W | apply push_out_keep | exact (w_slots W)].
+    + eapply IH; eassumption.
+Qed.
+
+(* is_connection_done never fails its assertion *)
+Lemma is_done_no_assert c : WFs c -> is_done c <> DAssertFailed.
+Proof.
+  intro W. unfold is_done. destruct (c_phase c) eqn:Hph; try discriminate.
+  - rewrite (w_sealed W) by (left; eauto). destruct (ob (c_out c)); discriminate.
+  - rewrite (w_sealed W) by (right; exact Hph). destruct (ob (c_out c)); discriminate.
+Qed.
+
+(* ---------- channel allocation ---------- *)
+
+Lemma WFs_update c c' :
+  WFs c -> c_phase c' = c_phase c -> c_ch0 c' = c_ch0 c -> c_out c' = c_out c ->
+  (forall z, c_ch0 c = Some z -> z_alloc_req z = []) ->
+  alookup 0 (c_qs c') = alookup 0 (c_qs c) ->
+  all_slots_ok c' -> Inv (c_ids c') -> 2 <= c_nextq c' -> WFs c'.
+Proof.
+  intros W Hp Hz Ho Hreq H0 Hs Hi Hn. constructor.
+  - rewrite Hp. intro Hph.
+    destruct (w_ch0 W Hph) as (z & Hz0 & Hzr & Hza & Hzb & Hsb & (qu & Hq & Hqi & Hqc) & Hzm & Hzal).
+    exists z. rewrite Hz. refine (conj Hz0 (conj Hzr (conj Hza (conj Hzb (conj Hsb (conj _ (conj Hzm _))))))).
+    + exists qu. rewrite H0. auto.
+    + unfold alloc_ok. rewrite (Hreq z Hz0). split; [cbn; lia|]. intro Hx. contradiction.
+  - exact Hs.
+  - rewrite Hp, Ho. exact (w_sealed W).
+  - exact Hi.
+  - exact Hn.
+  - rewrite Hp, Hz. exact (w_ch0_none W).
+Qed.
+
+Lemma slot_ok_new q : 2 <= q -> slot_ok (new_slot q).
+Proof.
+  intro Hq. split; [|intros x []]. unfold q0free_slot, new_slot; cbn.
+  repeat split; try exact I; try exact Hq. intros t q' [].
+Qed.
+
+Lemma Inv_insert ids req : Inv ids ->
+  let '(r, ids') := match req with
+                    | Some id => insert_some true id ids
+                    | None => insert_none true ids
+                    end in
+  r <> RPanic /\ Inv ids'.
+Proof.
+  intro H. destruct req as [id|].
+  - pose proof (@step_refines ids (OpenSome id) H eq_refl) as R. cbn [step] in R.
+    destruct (insert_some true id ids) as [r s']. destruct R as (Ha & Hi & _).
+    split; [|exact Hi]. destruct (allowed_no_panic Ha) as (Hp & _). exact Hp.
+  - pose proof (@step_refines ids OpenNone H eq_refl) as R. cbn [step] in R.
+    destruct (insert_none true ids) as [r s']. destruct R as (Ha & Hi & _).
+    split; [|exact Hi]. destruct (allowed_no_panic Ha) as (Hp & _). exact Hp.
+Qed.
+
+Lemma try_send_1 it m qu :
+  alookup 1 m = Some qu -> q_items qu = [] -> q_cap qu = Some 1 ->
+  exists r m', try_send 1 it m = (r, m') /\ r <> SFull /\ alookup 0 m' = alookup 0 m.
+Proof.
+  intros Hl Hi Hc. unfold try_send. rewrite Hl.
+  destruct (negb (q_rx qu)); [eexists _, _; split; [reflexivity|split; [discriminate|reflexivity]]|].
+  rewrite Hc, Hi. cbn [length N.of_nat].
+  assert (Hb : (1 <=? 0) = false) by reflexivity. rewrite Hb.
+  eexists _, _. split; [reflexivity|]. split; [discriminate|].
+  apply alookup_insert_neq. discriminate.
+Qed.
+
+Lemma allocate_WFs fuel : forall c o c',
+  allocate fuel c = (o, c') -> WFs c ->
+  (forall site, o <> OPanic site) /\ WFs c'.
+Proof.
+  induction fuel as [|fuel IH]; intros c o c' H W; cbn [allocate] in H.
+  - inversion H; subst. split; [discriminate|exact W].
+  - destruct (c_ch0 c) as [z|] eqn:Hz; [|inversion H; subst; split; [discriminate|exact W]].
+    pose proof (steady_of_ch0 W Hz) as Hph.
+    destruct (w_ch0 W Hph) as (z0 & Hz0 & Hzr & Hza & Hzb & Hsb & Hroom & Hzm & (Hal1 & Hal2)).
+    rewrite Hz in Hz0. inversion Hz0; subst z0.
+    destruct (z_alloc_req z) as [|req rest] eqn:Hreq.
+    + destruct (z_alloc_tx z); inversion H; subst; split; try discriminate; auto.
+    + assert (Hrest : rest = []) by (destruct rest; [reflexivity|cbn in Hal1; lia]). subst rest.
+      destruct Hal2 as (q1 & Hq1 & Hq1i & Hq1c); [discriminate|].
+      set (c0 := set_ch0 c (Some (z_with_alloc z []))) in *.
+      (* the state after taking the request: as c, with no request pending *)
+      assert (W0 : WFs c0).
+      { constructor.
+        - intros _. eexists. split; [reflexivity|]. cbn.
+          refine (conj Hzr (conj Hza (conj Hzb (conj Hsb (conj Hroom (conj Hzm _)))))).
+          split; [cbn; lia|]. cbn. intro Hx. contradiction.
+        - exact (w_slots W).
+        - exact (w_sealed W).
+        - exact (w_ids W).
+        - exact (w_nextq W).
+        - cbn. intro Hx. rewrite Hph in Hx. contradiction. }
+      assert (Hreq0 : forall z', c_ch0 c0 = Some z' -> z_alloc_req z' = [])
+        by (intros z' Hz'; cbn in Hz'; inversion Hz'; reflexivity).
+      pose proof (Inv_insert req (w_ids W)) as Hins.
+      change (c_ids c0) with (c_ids c) in H.
+      destruct (match req with Some id => insert_some true id (c_ids c) | None => insert_none true (c_ids c) end)
+        as [r ids'] eqn:Eins.
+      destruct Hins as (Hnp & Hinv').
+      rewrite Hza in H.
+      destruct r; try contradiction.
+      1: { (* a channel id was granted *)
+        remember (c_nextq c0) as q eqn:Eq.
+        assert (Hq : 2 <= q) by (subst q; exact (w_nextq W)).
+        cbv zeta in H.
+        match type of H with context [try_send 1 _ (c_qs ?x)] => set (c2 := x) in * end.
+        assert (Hq1' : alookup 1 (c_qs c2) = Some q1).
+        { cbn. rewrite alookup_insert_neq by lia. exact Hq1. }
+        destruct (try_send_1 (IAllocOk id) Hq1' Hq1i Hq1c) as (r & m' & Hts & Hnf & Hm0).
+        rewrite Hts in H.
+        assert (Hslots2 : all_slots_ok c2).
+        { intros k v Hin. cbn in Hin. unfold ainsert in Hin. destruct Hin as [E|Hin].
+          - inversion E; subst. apply slot_ok_new. exact Hq.
+          - eapply (w_slots W). eapply aremove_In. exact Hin. }
+        assert (H02 : alookup 0 (c_qs c2) = alookup 0 (c_qs c0)).
+        { cbn. apply alookup_insert_neq. lia. }
+        destruct r; try contradiction.
+        -- eapply IH; [exact H|].
+           eapply (@WFs_update c0); try reflexivity; try assumption.
+           ++ cbn. rewrite Hm0. exact H02.
+           ++ cbn. lia.
+        -- eapply IH; [exact H|].
+           eapply (@WFs_update c0); try reflexivity; try assumption.
+           ++ etransitivity; [exact (@drop_tx_q0 q (c_qs c2) Hq 0 ltac:(lia)) | exact H02].
+           ++ intros k v Hin. cbn in Hin. eapply Hslots2. eapply aremove_In. exact Hin.
+           ++ cbn. apply Inv_remove. exact Hinv'.
+           ++ cbn. lia.
+      }
+      (* refused, for whatever reason: only the reply is sent *)
+      all: cbv zeta in H;
+        match type of H with context [try_send 1 ?it (c_qs ?x)] =>
+          set (c2 := x) in *;
+          assert (Hq1' : alookup 1 (c_qs c2) = Some q1) by exact Hq1;
+          destruct (@try_send_1 it (c_qs c2) q1 Hq1' Hq1i Hq1c) as (r & m' & Hts & Hnf & Hm0)
+        end;
+        rewrite Hts in H;
+        destruct r; try contradiction; (eapply IH; [exact H|]);
+        eapply (@WFs_update c0); try reflexivity; try assumption; try exact (w_slots W); try exact (w_nextq W);
+        try exact Hinv'; try exact Hm0.
+Qed.
+
+
+(* ---------- one event, one batch ---------- *)
+
+(* the only model-side artefact: the write oracle of a STREAM event must say what the
+   transport does until it blocks, fails or everything is written *)
+Definition ev_ok (c : core) (e : event) : Prop :=
+  match e with
+  | EvStream (Some oracle) _ =>
+      let '(_, wr, _, _) := write_to_stream (c_out c) oracle in wr <> WStuck
+  | _ => True
+  end.
+
+Theorem handle_event_WFs c e o c' wire :
+  handle_event c e = (o, c', wire) -> WFs c -> ev_ok c e ->
+  (forall site, o <> OPanic site) /\ WFs c'.
+Proof.
+  intros H W Hev. destruct e as [w r|fired| | |n]; cbn [handle_event] in H.
+  - (* STREAM *)
+    assert (Hw : exists o1 c1 wire1,
+               match w with
+               | None => (OOk, c, [])
+               | Some oracle =>
+                   let '(bs, wr, ob', _) := write_to_stream (c_out c) oracle in
+                   (match wr with WOk => OOk | WIoErr => OErr EIoWrite | WStuck => OPanic 0 end,
+                    set_out c ob', bs)
+               end = (o1, c1, wire1) /\ (forall site, o1 <> OPanic site) /\ WFs c1).
+    { destruct w as [oracle|].
+      - cbn [ev_ok] in Hev. unfold write_to_stream in *.
+        destruct (write_loop (S (length oracle)) (ob (c_out c)) 0 oracle) as [[[bs wr] b] o'] eqn:Ew.
+        eexists _, _, _. split; [reflexivity|]. split.
+        + destruct wr; try discriminate. contradiction.
+        + eapply keep_WFs; [exact W | | exact (w_slots W)].
+          constructor; try reflexivity. cbn. auto.
+      - eexists _, _, _. split; [reflexivity|]. split; [discriminate | exact W]. }
+    destruct Hw as (o1 & c1 & wire1 & Ew & Np1 & W1). rewrite Ew in H.
+    destruct o1.
+    + destruct r as [[fs t]|]; [|inversion H; subst; split; [discriminate|exact W1]].
+      destruct (process_all c1 fs) as [o2 c2] eqn:Ep.
+      destruct (process_all_WFs Ep W1) as (Np2 & Hw2).
+      inversion H; subst. split; [|exact Hw2].
+      intros site. destruct o2.
+      * destruct t; cbn; destruct (is_client_closed c'); discriminate.
+      * destruct (is_client_closed c'); discriminate.
+      * exfalso. eapply Np2. reflexivity.
+    + inversion H; subst. split; [discriminate|exact W1].
+    + inversion H; subst. split; [exact Np1|exact W1].
+  - destruct (heartbeat_timers fired c) as [o1 c1] eqn:E. inversion H; subst.
+    eapply heartbeat_timers_WFs; eassumption.
+  - destruct (set_blocked (mail_fuel c) c) as [o1 c1] eqn:E. inversion H; subst.
+    eapply set_blocked_WFs; eassumption.
+  - destruct (allocate (mail_fuel c) c) as [o1 c1] eqn:E. inversion H; subst.
+    eapply allocate_WFs; eassumption.
+  - destruct (n =? 0) eqn:En.
+    + destruct (ch0_readable (mail_fuel c) c) as [o1 c1] eqn:E. inversion H; subst.
+      eapply ch0_readable_WFs; eassumption.
+    + destruct (chan_readable (mail_fuel c) n c) as [o1 c1] eqn:E. inversion H; subst.
+      eapply chan_readable_WFs; [eassumption|eassumption|]. apply N.eqb_neq. exact En.
+Qed.
+
+(* every event of the batch is well-formed in the state it is handled in *)
+Fixpoint batch_ok (c : core) (evs : list event) : Prop :=
+  match evs with
+  | [] => True
+  | e :: evs' => ev_ok c e /\ let '(_, c1, _) := handle_event c e in batch_ok c1 evs'
+  end.
+
+(* C20: no batch of events - any events, any number, any order - panics the I/O thread,
+   and the invariant holds again afterwards (so the assertion in is_connection_done holds,
+   and the next batch starts from a good state) *)
+Theorem run_batch_WFs evs : forall c o c' wire,
+  run_batch c evs = (o, c', wire) -> WFs c -> batch_ok c evs ->
+  (forall site, o <> OPanic site) /\ WFs c' /\ is_done c' <> DAssertFailed.
+Proof.
+  induction evs as [|e evs IH]; intros c o c' wire H W Hb; cbn [run_batch] in H.
+  - inversion H; subst. split; [discriminate|]. split; [exact W|apply is_done_no_assert; exact W].
+  - destruct Hb as [He Hrest].
+    destruct (handle_event c e) as [[o1 c1] w1] eqn:E.
+    destruct (handle_event_WFs E W He) as (Np & W1).
+    destruct o1.
+    + destruct (run_batch c1 evs) as [[o2 c2] w2] eqn:E2. inversion H; subst.
+      eapply IH; eassumption.
+    + inversion H; subst. split; [exact Np|]. split; [exact W1|apply is_done_no_assert; exact W1].
+    + inversion H; subst. split; [exact Np|]. split; [exact W1|apply is_done_no_assert; exact W1].
+Qed.
+
+(* handling a batch IS handling its events one after another: a batch splits anywhere *)
+Theorem run_batch_app evs1 : forall evs2 c,
+  run_batch c (evs1 ++ evs2) =
+  let '(o1, c1, w1) := run_batch c evs1 in
+  match o1 with
+  | OOk => let '(o2, c2, w2) := run_batch c1 evs2 in (o2, c2, w1 ++ w2)
+  | _ => (o1, c1, w1)
+  end.
+Proof.
+  induction evs1 as [|e evs1 IH]; intros evs2 c; cbn [app run_batch].
+  - destruct (run_batch c evs2) as [[o2 c2] w2]. reflexivity.
+  - destruct (handle_event c e) as [[o c1] w]. destruct o; try reflexivity.
+    rewrite IH. destruct (run_batch c1 evs1) as [[o1 c1'] w1].
+    destruct o1; try reflexivity.
+    destruct (run_batch c1' evs2) as [[o2 c2] w2]. rewrite app_assoc. reflexivity.
+Qed.
+
+(* stale wake-ups: once the connection-level close (or a client exception) has been
+   processed, the channel-0 sources are gone; a wake-up for them that was already pending
+   in the same batch is ignored, and so is one for a channel whose slot was removed *)
+Theorem stale_wakeups c :
+  c_ch0 c = None ->
+  handle_event c EvAlloc = (OOk, c, []) /\
+  handle_event c EvSetBlocked = (OOk, c, []) /\
+  handle_event c (EvChan 0) = (OOk, c, []) /\
+  (forall n, n <> 0 -> alookup n (c_slots c) = None -> handle_event c (EvChan n) = (OOk, c, [])).
+Proof.
+  intro Hz. cbn [handle_event]. unfold mail_fuel. rewrite Hz.
+  repeat split; cbn [allocate set_blocked ch0_readable]; try (rewrite Hz; reflexivity).
+  intros n Hn Hl. destruct (n =? 0) eqn:E; [apply N.eqb_eq in E; contradiction|].
+  cbn [chan_readable]. rewrite Hl. reflexivity.
 Qed.
